@@ -67,7 +67,7 @@ const c14Rule = "(every sixth case publishes an EMPTY index, every sixth an inde
 type c14In struct {
 	C14  bool  `json:"c14"`
 	Case eCase `json:"case"`
-	Ops  []int `json:"ops"` // 0 Reset, 1 AddDocument(new field), 2 BuildIndex, 3 ConfigField(new), 4 AddDocument(known field only)
+	Ops  []int `json:"ops"` // 0 Reset, 1 AddDocument(new field), 2 BuildIndex, 3 ConfigField(new), 4 AddDocument(known field only), 5 re-register the default-holder factory with other field parsers
 }
 
 func execC14(raw json.RawMessage) (res execResult, err error) {
@@ -122,6 +122,11 @@ func execC14(raw json.RawMessage) (res execResult, err error) {
 			d := be.NewDocument(be.DocID(7000 + n))
 			d.AddConjunction(be.NewConjunction().In(fieldName(0), []int{0, 1, 2, 3, 4, 5, 6}))
 			safeCall(func() { b.AddDocument(d) })
+		case 5: // the process-wide default-holder factory now gives fields of the published generation other parsers
+			// (filled into the new holder's table in place): holders created from here on must not share a table
+			// with the published index's holders
+			undo := installParsers(map[int]string{0: "number", 1: "strhash", 4: "number"})
+			defer undo() // back to the stock factory when this case is over (registered last, so it runs before `restore`)
 		case 2:
 			safeCall(func() { b.BuildIndex() })
 		case 3:
@@ -172,7 +177,10 @@ func init() {
 					ops = []int{0, 4, 2}
 				}
 				for k := 1 + r.Intn(19); k > 0; k-- {
-					ops = append(ops, r.Intn(5))
+					ops = append(ops, r.Intn(6))
+				}
+				if i%6 == 3 { // factory change first, then a new generation through Reset / AddDocument / BuildIndex
+					ops = append([]int{0, 5, 0, 4, 1, 2}, ops...)
 				}
 				// a field configured with an empty option before publication that no document of the published
 				// generation uses; later generations are the first to use it
